@@ -308,6 +308,8 @@ pub fn run(ctx: &Ctx) -> Report {
             });
         }
     }
+    // in a build with reduced limits (stage `constrained`) only the lists it supports are generated
+    cases.retain(|c| crate::common::in_build_limits(&c.levels));
     // longest first so that the tail of the run is short
     cases.sort_by(|a, b| {
         shared::tree_cost(b.alg, &b.levels[0]).partial_cmp(&shared::tree_cost(a.alg, &a.levels[0])).unwrap()
@@ -328,7 +330,7 @@ pub fn run(ctx: &Ctx) -> Report {
     if rep.counter("tool_keygens") == 0 {
         rep.inconclusive("no reference-tool comparison was made");
     }
-    if rep.counter("child_keys_compared") == 0 {
+    if rep.counter("child_keys_compared") == 0 && crate::common::build_limits().map(|(n, _, _)| n > 1).unwrap_or(true) {
         rep.inconclusive("no embedded child public key was observed");
     }
     shared::add_assumptions(&mut rep);
